@@ -142,6 +142,19 @@ class MultiOut(nn.Module):
         return v.relu().sum(), (-h).sum()
 
 
+class NameCollision(nn.Module):
+    """a method call whose string target ('relu', 'neg') is also the NAME TorchDynamo gives to a function-call node of the same graph:
+    selecting the method target must remove the method nodes only"""
+
+    def __init__(self) -> None:
+        super().__init__()
+        self.l = nn.Linear(6, 6)
+
+    def forward(self, x: torch.Tensor) -> torch.Tensor:
+        # no local names: TorchDynamo then names the nodes after their targets (relu, neg, relu_1, neg_1, neg_2)
+        return (torch.neg(F.relu(self.l(x))).relu() + torch.neg(x).neg()).sum()
+
+
 class Residual(nn.Module):
     def __init__(self) -> None:
         super().__init__()
@@ -169,6 +182,7 @@ MODULES: Dict[str, Tuple[Callable[[], nn.Module], Callable[[], List[torch.Tensor
     "int_index": (IntIndex, lambda: [torch.randn(4, 6)]), "two_float_to_bool": (TwoFloatToBool, lambda: [torch.randn(4, 6)]),
     "int_first": (IntFirst, lambda: [torch.randint(0, 9, (5,))]),
     "float_feeds_only_bool": (FloatFeedsOnlyBool, lambda: [torch.randn(4, 6)]), "multi_out": (MultiOut, lambda: [torch.randn(4, 6)]),
+    "name_collision": (NameCollision, lambda: [torch.randn(4, 6)]),
     "residual": (Residual, lambda: [torch.randn(36)]), "dyn_slice": (DynSlice, lambda: [[torch.randn(6, 6)], [torch.randn(8, 6)]]), "embed": (Embed, lambda: [torch.randint(0, 9, (5,))]),
 }
 
@@ -493,22 +507,64 @@ def task_non_float(mname: str, backward: bool) -> List[Dict[str, Any]]:
 
 
 # ------------------------------------------------------------------------------------------ selective pruning, symbolic target set
+def _same_target(a: Any, b: Any) -> bool:
+    """membership of real lists / sets: identity or ==; strings (method, attribute and placeholder targets) compare by value"""
+    if a is b:
+        return True
+    return isinstance(a, str) and isinstance(b, str) and a == b
+
+
+class SymElem:
+    """one element of the symbolic target set as real containers see it: `list(targets)`, `set(targets)`, `x in list(targets)`
+    all end in `elem == x` (after a hash match for sets), which the solver decides"""
+
+    def __init__(self, t: Any, v: Any):
+        self.t, self.v = t, v
+
+    def __eq__(self, other: Any) -> Any:
+        if isinstance(other, SymElem):
+            return other is self
+        return bool(SBool(self.v)) if _same_target(self.t, other) else False
+
+    def __ne__(self, other: Any) -> Any:
+        return not self.__eq__(other)
+
+    def __hash__(self) -> int:
+        return hash(self.t)
+
+
 class SymTargets:
-    """a target set whose membership is decided by the solver, per distinct call target"""
+    """a target set whose membership is decided by the solver, per distinct call target; it can be iterated / materialised
+    (`list(targets)`, `set(targets)`, `tuple(targets)`): the copies hold SymElem stand-ins whose equality is the same solver decision"""
 
     def __init__(self, c: Ctx, targets: List[Any]):
+        self.elems: List[SymElem] = []
         self.sel = {}
         for i, t in enumerate(targets):
             v = z3.Bool(f"sel{i}")
             self.sel[id(t)] = (t, v)
+            self.elems.append(SymElem(t, v))
             c.extra_vars[f"sel{i}"] = v
 
-    def __contains__(self, t: Any) -> Any:
-        e = self.sel.get(id(t))
-        return bool(SBool(e[1])) if e is not None else False
+    def __contains__(self, x: Any) -> Any:
+        for e in self.elems:
+            if _same_target(e.t, x):
+                return bool(SBool(e.v))
+        return False
 
     def __iter__(self) -> Any:
-        return iter([])
+        return iter(list(self.elems))
+
+    def __len__(self) -> int:
+        return len(self.elems)
+
+
+def distinct_targets(g: fx.Graph) -> List[Any]:
+    targets: List[Any] = []
+    for n in g.nodes:
+        if n.op in ("call_function", "call_method") and all(not _same_target(n.target, t) for t in targets):
+            targets.append(n.target)
+    return targets[:6]
 
 
 def h_selected(mname: str):
@@ -516,15 +572,11 @@ def h_selected(mname: str):
         import unit_scaling.transforms._track_scales as uts
         info = {"module": mname}
         g = tracked_graph(mname, False)
-        targets: List[Any] = []
-        for n in g.nodes:
-            if n.op in ("call_function", "call_method") and all(n.target is not t for t in targets):
-                targets.append(n.target)
-        targets = targets[:6]
+        targets = distinct_targets(g)
         st = SymTargets(c, targets)
         snap = [(n.name, arg_sig(n.args), arg_sig(n.kwargs)) for n in g.nodes]
-        tnames = {id(t): i for i, t in enumerate(targets)}
-        node_t = {n.name: tnames.get(id(n.target)) for n in g.nodes if n.op in ("call_function", "call_method")}
+        node_t = {n.name: next((i for i, t in enumerate(targets) if _same_target(t, n.target)), None)
+                  for n in g.nodes if n.op in ("call_function", "call_method")}
         gc = copy.deepcopy(g)
         res = uts.prune_selected_nodes(gc, st)
         rn = set(names(res))
@@ -547,18 +599,14 @@ def h_selected(mname: str):
 def replay_selected(obname: str, model: Dict[str, Any], info: Any) -> Tuple[bool, str]:
     import unit_scaling.transforms._track_scales as uts
     g = tracked_graph(info["module"], False)
-    targets: List[Any] = []
-    for n in g.nodes:
-        if n.op in ("call_function", "call_method") and all(n.target is not t for t in targets):
-            targets.append(n.target)
-    targets = targets[:6]
+    targets = distinct_targets(g)
     chosen = [t for i, t in enumerate(targets) if str(model.get(f"sel{i}", "False")) in ("True", "1") or model.get(f"sel{i}") is True]
     snap = [(n.name, arg_sig(n.args), arg_sig(n.kwargs)) for n in g.nodes]
     try:
         res = uts.prune_selected_nodes(copy.deepcopy(g), chosen)
     except Exception as e:
         return True, f"prune_selected_nodes({info['module']}, {[getattr(t, '__name__', t) for t in chosen]}) raised {type(e).__name__}: {e}"
-    removed = {n.name for n in g.nodes if any(n.target is t for t in chosen) and n.op in ("call_function", "call_method")}
+    removed = {n.name for n in g.nodes if any(_same_target(n.target, t) for t in chosen) and n.op in ("call_function", "call_method")}
     bad = check_result(g, snap, res, removed, {r: None for r in removed}, copying=False)
     return bool(bad), f"prune_selected_nodes({info['module']}, {[getattr(t, '__name__', t) for t in chosen]}): " + "; ".join(bad[:3] or ["ok"])
 
@@ -577,6 +625,8 @@ def run(rep: Report, only: str = "") -> None:
         for bw in (True, False):
             tasks.append((task_non_float, (mname, bw)))
             tasks.append((task_same_concrete, (mname, bw)))
+            if mname == "name_collision":
+                continue  # a chain of six single-input nodes: built for the selective pruning (names vs targets); its same-scale path space exceeds the path budget
             for rk in (("sym", str(2 ** -16), str(2 ** -8), str(2 ** -2)) if thorough else ("sym",)):
                 tasks.append((task_same, (mname, bw, rk, timeout)))
         tasks.append((task_selected, (mname, timeout)))
